@@ -313,6 +313,10 @@ class HTTPConnection(_HTTPConnection):
     def is_connected(self) -> bool:
         if self.sock is None:
             return False
+        # Data the TLS layer has already decrypted isn't visible to select/poll.
+        pending = getattr(self.sock, "pending", None)
+        if pending is not None and pending() > 0:
+            return False
         return not wait_for_read(self.sock, timeout=0.0)
 
     @property
